@@ -529,6 +529,12 @@ class NEB:
                 "Cannot construct a NEB from species with different atoms"
             )
 
+        if initial.atomic_symbols != final.atomic_symbols:
+            raise ValueError(
+                "Cannot construct a NEB from species with different atom "
+                "ordering"
+            )
+
         neb = cls.from_list(
             species_list=cls._interpolated_species(initial, final, n=num),
             init_k=init_k,
